@@ -7,11 +7,15 @@ PROPERTIES = ['C09', 'C02']
 _here = os.path.dirname(os.path.abspath(__file__))
 
 BOUNDS = {
-    'quick': 'step: ONE operation from EVERY sorted pre-state: static_set<int,CAP,C> and flat_set<int,static_vector<int,CAP>,C> at capacity CAP = 3, pre-size NA in 0..CAP (enumerated), '
-             'comparators less<int>, greater<int> and the transparent less<> (heterogeneous lookups through a wrapper key); second set / source range / replacement container size NB in 0..CAP (enumerated); '
-             'flat_set over inplace_vector (the members that compile) and flat_multiset over static_vector / inplace_vector at CAP = 3; all keys full 32-bit symbolic, object bytes before construction and unused '
-             'element storage symbolic, positions / hints symbolic; from_any: construction from every arbitrary range / container of NB in 0..CAP keys; hist: 2 symbolic operations from the default-constructed set (CAP 3)',
-    'thorough': 'the same with CAP in {3, 4} for every comparator (CAP 5 for less<int>: lookups, single-key insert/erase), hist with 3 symbolic operations at CAP 3 and 3 operations at CAP 2 (reaches the full set)',
+    'quick': 'capacity CAP = 3. step (ONE operation from EVERY sorted pre-state, pre-size NA = 0..CAP enumerated, keys full 32-bit symbolic, object bytes before construction + unused element storage symbolic, positions/hints symbolic): '
+             'less<int>: every entry of static_set<int,3,C> and flat_set<int,static_vector<int,3>,C> - observe, find/contains/count, lower/upper_bound, equal_range, insert const&/&&, emplace (+ returned iterator), insert(first,last) with NB = 1..3 arbitrary keys, '
+             'hinted insert/emplace_hint, erase key/iterator/const_iterator/range, clear, swap (member: every NA x NB; free: one NB per NA), extract, replace; '
+             'greater<int>: the comparator-dependent entries (lookups, insert/emplace + iterator, erase key/iterator/range, hinted insert, insert(first,last) NB = 2, swap one NB per NA, from_range/from_container); '
+             'less<> (transparent): lookups incl. heterogeneous find/contains/count/lower_bound/upper_bound/equal_range, insert/emplace + iterator, erase(key); '
+             'flat_set over inplace_vector: lookups (all comparators), observe/clear/extract (less<int>); from_any: static_set/flat_set from every range / container of NB = 0..3 arbitrary keys, flat_multiset (static_vector, inplace_vector) from every container of 0..3 keys; '
+             'hist: 2 symbolic operations (insert, emplace, erase key/iterator/range, clear) from the default-constructed set, less and greater, static_set and flat_set',
+    'thorough': 'CAP in {3, 4}: every entry, every comparator, every (NA, NB) pair; CAP 5 (less<int>): find/contains/count, lower/upper_bound, insert/emplace, erase key/iterator for NA = 0..5; '
+                'hist: 3 symbolic operations at CAP 3 and 3 operations at CAP 2 (reaches the full set and the refused insert)',
 }
 ASSUMPTIONS = [
     'C09: the key type is int; equivalence under less/greater is equality, so comparator-vs-operator== confusions inside tetl (static_set::insert uses !=, find uses ==, flat_set::erase(key) uses remove/==) are invisible',
@@ -93,7 +97,7 @@ def queries(tier, prop='C09'):
         cfg = {'SUBJ': subj, 'CMP': cmp_, 'CAP': cap, 'NA': na, 'NB': nb}
         if extra:
             cfg.update(extra)
-        q = dict(entry='q_' + entry, cfg=cfg, unwind=unwind or cap + 3, unwindset=uw(cap), budget=budget or (120 if quick else 600),
+        q = dict(entry='q_' + entry, cfg=cfg, unwind=unwind or cap + 3, unwindset=uw(cap), budget=budget or (300 if quick else 900),
                  solver=solver, ub=ub, nofunc=ub)
         if confirm_only:
             q['confirm_only'] = True
@@ -138,9 +142,12 @@ def queries(tier, prop='C09'):
                 for e in INS:
                     if not full and e == 'insert_r':
                         continue
-                    add(e, subj, cmp_, cap, na)
+                    # measured: with the key restricted to "absent" on a full set (open-finding regions, confirm queries) minisat does not
+                    # finish (> 900 s) where cadical needs 5-25 s; everywhere else minisat is 2-4x faster than cadical
+                    sv = 'cadical' if na == cap else 'minisat'
+                    add(e, subj, cmp_, cap, na, solver=sv)
                     if not ub:
-                        add(e + '_it', subj, cmp_, cap, na, confirm_only=whole)
+                        add(e + '_it', subj, cmp_, cap, na, confirm_only=whole, solver=sv)
                 add('erase_key', subj, cmp_, cap, na,
                     confirm_only=(not ub and ss and cmp_ == 1 and na >= 1 and 'C09_static_set_erase_key_ignores_compare' in opn))
                 if lvl == 0:
@@ -152,7 +159,7 @@ def queries(tier, prop='C09'):
                     for e in HINT:
                         if not full and e != 'insert_hint_l':
                             continue
-                        add(e, subj, cmp_, cap, na)
+                        add(e, subj, cmp_, cap, na, solver='cadical' if na == cap else 'minisat')
                     if na >= 1 and full:
                         add('erase_cit', subj, cmp_, cap, na)
                     if full:
